@@ -190,11 +190,13 @@ def accNames (accs : List Acc) (get : Bool) : List String :=
 /-- the accessor name makeJson looks for -/
 def accKey (get : Bool) (n : String) : String := if get then Transfer.pascalS n else "Set" ++ Transfer.pascalS n
 
-def flagOf (get : Bool) (t : NType) (f : Ctor.Field) : Bool := if get then (flagsOf t f).1 else (flagsOf t f).2
+/-- `f.isGet && g.getter` / `f.isSet && g.setter` (json.go:58-63): the field-level flag gated by the type-level switch -/
+def flagOf (get : Bool) (sw : Bool × Bool) (t : NType) (f : Ctor.Field) : Bool :=
+  if get then (flagsOf t f).1 && sw.1 else (flagsOf t f).2 && sw.2
 
 /-- makeJson: unexported visible fields read through a getter (`get`) / written through a setter -/
-def jpick (get : Bool) (t : NType) (accs : List Acc) (unexp : List Ctor.Field) : List String :=
-  (unexp.filter (fun f => flagOf get t f || (accNames accs get).contains (accKey get f.name))).map (·.name)
+def jpick (get : Bool) (sw : Bool × Bool) (t : NType) (accs : List Acc) (unexp : List Ctor.Field) : List String :=
+  (unexp.filter (fun f => flagOf get sw t f || (accNames accs get).contains (accKey get f.name))).map (·.name)
 
 /-- makeGetSet, embedded entries: accessors of the visible `<E>Getter` / `<E>Setter` interfaces -/
 def embedAccs (sw : Bool × Bool) (files : Disk) (embeds : List String) : List Acc :=
@@ -212,8 +214,8 @@ def newStep (lk : Leaks) (fl : NFlags) (files : Disk) (st : NSt) (t : NType) : N
   let sw := switchOf fl t
   let fields := Ctor.flatten t.tree
   let hasNew := hasNewIn || Ctor.hasNewTop t.tree
-  -- makeGetSet
-  let once := onceAux fields []
+  -- makeGetSet: shadowed entries are skipped, then one entry per name
+  let once := onceAux (fields.filter (fun f => !f.isShadowed)) []
   let embeds := (once.filter (·.isEmbeded)).map (·.name)
   let getE := embedIfaces sw.1 files "Getter" embeds
   let setE := embedIfaces sw.2 files "Setter" embeds
@@ -226,8 +228,8 @@ def newStep (lk : Leaks) (fl : NFlags) (files : Disk) (st : NSt) (t : NType) : N
   -- makeJson
   let vis := fields.filter (fun f => !f.isShadowed && !f.isEmbeded)
   let unexp := vis.filter (fun f => !exported f.name)
-  let jget := jpick true t accs unexp
-  let jset := jpick false t accs unexp
+  let jget := jpick true sw t accs unexp
+  let jset := jpick false sw t accs unexp
   let jexp := (vis.filter (fun f => exported f.name)).map (·.name)
   let needJSON := fl.json && (!jexp.isEmpty || !jget.isEmpty || !jset.isEmpty)
   let hasG := fl.getset && (!getE.isEmpty || !getList.isEmpty)
